@@ -154,6 +154,27 @@ def getCov (c : Option (NArr R)) : Except Err (NArr R) :=
   | some a => .ok a
   | none => .error .notImplemented
 
+/-- The part of a `Gaussian`'s state the `cov` getter reads: whether `'cov'` is the mutable
+    variable, and the attribute `_cov`. -/
+structure CovState (R : Type) where
+  covMutable : Bool
+  cov : Option (NArr R)
+
+/-- operations on one Gaussian object that touch `_cov` -/
+inductive CovOp (R : Type)
+  /-- assignment to the main matrix through its setter (`g.cov = v`, `g.prec = v`, `g.sqrtcov = v`,
+      `g.sqrtprec = v`): the `cov` setter stores `v`; the other three execute `self._cov = None`
+      ("Reset covariance (in case it was computed before)", l.169/193/216) -/
+  | setMain (v : NArr R)
+  /-- `compute_cov()` (l.243-281): stores and returns the full covariance matrix of the *current* parameters -/
+  | computeCov (full : NArr R)
+
+def CovState.step (st : CovState R) : CovOp R → CovState R
+  | .setMain v => if st.covMutable then { st with cov := some v } else { st with cov := none }
+  | .computeCov full => { st with cov := some full }
+
+def CovState.run (st : CovState R) (ops : List (CovOp R)) : CovState R := ops.foldl CovState.step st
+
 /-- `if np.size(C)==1: C = C.ravel()[0]*np.eye(dim)` -/
 def expandScalar (C : NArr R) (dim : Nat) : NArr R :=
   if C.size = 1 then NArr.scale C.first (eye dim) else C
